@@ -220,10 +220,21 @@ def _str_const(idx, fi, node):
 
 def formats(idx):
     fw = idx.method("ResultSerializer", "get_run_dir_name_from_datetime")
-    w = [n for n in walk_no_nested(fw.node) if isinstance(n, ast.Call) and call_name(n) == "strftime"]
-    if len(w) != 1:
-        raise AnalysisError("get_run_dir_name_from_datetime: expected exactly one strftime call")
-    wf = _str_const(idx, fw, w[0].args[0])
+    # the writer's format: what the function hands to dt.strftime (interpreted, so a helper or a module constant may hold it)
+    wf = None
+    try:
+        it = Interp(idx, types={"self": "ResultSerializer"}, unknown_calls="error", handlers={"dt.strftime": lambda i, c, r, a, k: ("strftime", a[0])})
+        ps = it.run_all(fw, args={"dt": Obj("dt")})
+        res = ps[0].result if len(ps) == 1 else None
+        if res and res[0] == "return" and isinstance(res[1], tuple) and len(res[1]) == 2 and res[1][0] == "strftime" and isinstance(res[1][1], str):
+            wf = res[1][1]
+    except AnalysisError:
+        wf = None
+    if wf is None:
+        w = [n for n in walk_no_nested(fw.node) if isinstance(n, ast.Call) and call_name(n) == "strftime"]
+        if len(w) != 1:
+            raise AnalysisError("get_run_dir_name_from_datetime: cannot determine the format handed to strftime")
+        wf = _str_const(idx, fw, w[0].args[0])
     fr = idx.method("ResultsManager", "_find_in_dir_names")
     rfs = []
     # the reader's parse format(s): wherever in ResultsManager the directory names are parsed (the sort key may live in a helper)
@@ -483,7 +494,7 @@ def r5(idx, rep):
     rep.stats["table_rows"] = rep.stats.get("table_rows", 0) + n
     # _find_instance: ':last' → last=True, ':first' → last=False; no ':' → the literal instance (bare name)
     ff = idx.method("ResultsManager", "_find_instance")
-    rep.analysed(ff, idx.method("ResultsManager", "_find_last"), idx.method("ResultsManager", "_find_first"), idx.method("ResultsManager", "_find"))
+    rep.analysed(ff, *[idx.method("ResultsManager", m) for m in ("_find_last", "_find_first", "_find") if idx.has_method("ResultsManager", m)])
 
     def find_names(i, c, r, a, k):
         i.record_call("_find_in_dir_names", (a, k))
